@@ -5,7 +5,7 @@
    CNAME/other-data exclusivity.  Proofs: Proofs/Txn*.v. *)
 From DV Require Import Base.Prelude Model.NameM Model.TxnM.
 From DV Require Import Proofs.NameValid Proofs.TxnName Proofs.TxnStore Proofs.TxnLow Proofs.TxnSim Proofs.TxnThm
-                       Proofs.TxnIrrel Proofs.TxnSpec Proofs.TxnInv Proofs.TxnItems Proofs.TxnAbs Proofs.TxnHeap Proofs.TxnCount Proofs.TxnObj Proofs.TxnObjR Proofs.TxnBtree.
+                       Proofs.TxnIrrel Proofs.TxnSpec Proofs.TxnInv Proofs.TxnItems Proofs.TxnAbs Proofs.TxnHeap Proofs.TxnCount Proofs.TxnObj Proofs.TxnObjR Proofs.TxnBtree Proofs.TxnHook.
 Open Scope Z_scope.
 
 (* Any history of transactions - every operation and argument form, manual commit/rollback or with-block,
@@ -191,6 +191,20 @@ Theorem btree_overrides_leave_content_alone :
   Forall2 (ROut RPb) (btree_hist c h bz) (impl_hist c h z).
 Proof. exact btree_refines_value. Qed.
 Print Assumptions btree_overrides_leave_content_alone.
+
+(* check_put_rdataset / check_delete_rdataset / check_delete_name: the checks are a store transformer, so the
+   store-generic theorems (atomic, ended_refuses_all, ...) hold with checks installed; the refinement lifts *)
+Theorem refines_with_checks_installed :
+  forall c, wfc c -> forall hk h z l, Forall spec_valid h -> RP c z l ->
+  Forall2 (ROut (RP c)) (run_hist (hooked (zstore c) hk) c h z) (run_hist (hooked (rstore c) hk) c h l).
+Proof. exact refines_hooked. Qed.
+Print Assumptions refines_with_checks_installed.
+
+Theorem a_check_that_objects_vetoes_the_put :
+  forall P S (st : store P S) hk s n r e,
+  run_hooks st (hk_put hk) s n (r_ty r) (r_ttl r) = Lib e -> s_put (hooked st hk) s n r = Lib e.
+Proof. exact @put_check_vetoes. Qed.
+Print Assumptions a_check_that_objects_vetoes_the_put.
 
 (* ---------------------------------------------------------------- name form / configuration *)
 (* Two histories that differ only in how owner names are spelled (relative or absolute, letter case:
@@ -517,3 +531,8 @@ Example ex_btree_flags :
   map (fun x => map (fun kn => (fst kn, bn_flags (snd kn))) (fst (snd x))) (btree_hist c h ([], [])) =
   [[([], 1); (ex_www, 2); ([[120]] ++ ex_www, 4)]].
 Proof. vm_compute. reflexivity. Qed.
+
+(* atomicity with checks installed is an instance of `atomic` *)
+Example ex_atomic_hooked :
+  forall hk ops k z t, no_commit ops -> snd (run_with (hooked (zstore ex_cfg) hk) ex_cfg ops (Some k) z t) = z.
+Proof. intros. apply atomic_every_crash_point. assumption. Qed.
